@@ -15,14 +15,14 @@ import (
 // Script is the behaviour of a simulated command. It travels inside the
 // process configuration: `command: 'sim {json} free text'`.
 type Script struct {
-	W        int      `json:"w"`             // world id
-	Exits    []int    `json:"x,omitempty"`   // exit code per attempt (last repeats); default 0
-	RunMs    []int    `json:"ms,omitempty"`  // lifetime per attempt in ms (last repeats); -1 = until gate exit:<name>[:<att>]
-	Sig      *SigSpec `json:"sg,omitempty"`  // reaction to signals
-	StartErr []int    `json:"se,omitempty"`  // attempts whose Start() fails; 0 = every attempt
-	Out      []Chunk  `json:"o,omitempty"`   // output script
-	Ready    string   `json:"rl,omitempty"`  // ready line written when gate ready:<name> opens
-	Tag      string   `json:"t,omitempty"`   // free label (config version etc.)
+	W        int      `json:"w"`            // world id
+	Exits    []int    `json:"x,omitempty"`  // exit code per attempt (last repeats); default 0
+	RunMs    []int    `json:"ms,omitempty"` // lifetime per attempt in ms (last repeats); -1 = until gate exit:<name>[:<att>]
+	Sig      *SigSpec `json:"sg,omitempty"` // reaction to signals
+	StartErr []int    `json:"se,omitempty"` // attempts whose Start() fails; 0 = every attempt
+	Out      []Chunk  `json:"o,omitempty"`  // output script
+	Ready    string   `json:"rl,omitempty"` // ready line written when gate ready:<name> opens
+	Tag      string   `json:"t,omitempty"`  // free label (config version etc.)
 }
 
 type SigSpec struct {
@@ -208,10 +208,10 @@ func newProc(w *World, owner any, name string, argv []string, s Script, rest str
 	return &Proc{w: w, owner: owner, name: name, argv: argv, script: s, rest: rest, done: make(chan struct{})}
 }
 
-func (p *Proc) SetCmdArgs()          { p.cmdArgs = true }
-func (p *Proc) AttachIo()            { p.attachIo = true }
-func (p *Proc) SetEnv(env []string)  { p.env = env }
-func (p *Proc) SetDir(dir string)    { p.dir = dir }
+func (p *Proc) SetCmdArgs()             { p.cmdArgs = true }
+func (p *Proc) AttachIo()               { p.attachIo = true }
+func (p *Proc) SetEnv(env []string)     { p.env = env }
+func (p *Proc) SetDir(dir string)       { p.dir = dir }
 func (p *Proc) Output() ([]byte, error) { return nil, errors.New("sim: Output not supported") }
 
 func (p *Proc) StdoutPipe() (io.ReadCloser, error) {
